@@ -120,7 +120,10 @@ def s_badlits(tier, rng, evs=EVS, mode='eval'):
     lits = ['1.2.3', '1..', '1..2', '..1', '.', '1.', '.5', '99999999999999999999', '9223372036854775807', '9223372036854775808',
             '18446744073709551616', '1' * 30, '1' * 40 + '.5', '0.' + '1' * 40, '²' * 25, '2' + '⁹' * 20, '1.5²', '1e5', '1.e', '0x10',
             '00012', '0.50', '1.2.', '79228162514264337593543950335', '79228162514264337593543950336', '1i', '1.5i', '.5i', 'i', 'ii', '2ii',
-            '1.2.3i', '1 2', '1.2 .3', '1_000', '１', '٣', '1' * 200, '0.' + '0' * 200 + '1', '9' * 400]
+            '1.2.3i', '1 2', '1.2 .3', '1_000', '１', '٣', '1' * 200, '0.' + '0' * 200 + '1', '9' * 400,
+            # texts that std's own parsers accept (a whole-input `str::parse` fast path would let them through)
+            'inf', 'infinity', 'Infinity', 'nan', 'NaN', '1E5', '1e-5', '1e+5', '5e', 'e5', '+5', '+.5', '5.e1', '0b11', '0o7', '1f64', '1i64',
+            '9223372036854775807', '09223372036854775808', '0009223372036854775808', '-0', '1,5', '1;5', "1'000"]
     out = []
     for ev in evs:
         for l in lits:
@@ -284,8 +287,34 @@ def s_oppool(tier, rng, evs=EVS, mode='eval'):
                 out.append(case(ev, mode, ph, f + '(@,@)'))
     return out
 
+SPECIALS2 = {
+    'f64': ['0', '1', '2', '0.5', '10', '1.0000000000000002', '0.9999999999999999', '0.9999999999999998', '179769313486231570000000000000000000000000000000000000000000000000000000000000000000000000000000000000000000000000000000000000000000000000000000000000000000000000000000000000000000000000000000000000000000000000000000000000000000000000000000000000000000000000000000000000000000000000000000000000000000000000000',
+            '0.' + '0' * 307 + '22250738585072014', '0.' + '0' * 323 + '5', '9007199254740993', '1/0', '0/0', '(-0.0)'],
+    'i64': ['0', '1', '2', '3', '10', '62', '63', '64', '9223372036854775807', '(-9223372036854775807-1)', '4294967296', '3037000500', '(-1)', '(-2)'],
+    'decimal': ['0', '1', '2', '0.5', '10', '1.0000000000000000000000000002', '1.0000000000000000000000000001', '0.9999999999999999999999999995', '0.9999999999999999999999999999',
+                '79228162514264337593543950335', '0.0000000000000000000000000001', '100000000000', '(-1)', '(-0)', '28', '0.3333333333333333333333333333'],
+    'complex': ['0', '1', '2', 'i', '(-1)', '0.5', '(1+i)', '1.0000000000000002', '(0.9999999999999999i)', '1' + '0' * 200, '0.' + '0' * 200 + '1', '(1/0)'],
+}
+SPECIALS2['number'] = SPECIALS2['f64'] + ['9223372036854775807', '(-9223372036854775807-1)', '4294967296', '63', '64']
+
+def s_pairs2(tier, rng, evs=EVS, mode='eval'):
+    """every binary operator and every two-argument function on ALL pairs of a pool of special values (identity and
+       singular points and their neighbours: 0, 1, 1 +- one unit in the last place, the extremes, non-finite values)"""
+    out = []
+    for ev in evs:
+        sp = SPECIALS2[ev]
+        for a in sp:
+            for b in sp:
+                for op in gen.BINOPS[ev]:
+                    out.append(case(ev, mode, None, a + op + b))
+                for f in gen.F2[ev]:
+                    out.append(case(ev, mode, None, f + '(' + a + ',' + b + ')'))
+                for f in gen.FV[ev][:4]:
+                    out.append(case(ev, mode, None, f + '(' + a + ',' + b + ')'))
+    return out
+
 def run_C01(tier, rng, stats):
-    cs = (s_oppool(tier, rng) + s_tokseq(tier, rng) + s_tokseq_full(tier, rng) + s_chars(tier, rng) + s_wf(tier, rng, nq=250, nt=2500) +
+    cs = (s_oppool(tier, rng) + s_pairs2(tier, rng) + s_tokseq(tier, rng) + s_tokseq_full(tier, rng) + s_chars(tier, rng) + s_wf(tier, rng, nq=250, nt=2500) +
           s_mut(tier, rng, nq=250, nt=2500) + s_badlits(tier, rng) + s_aggfail(tier, rng) + s_loops(tier, rng))
     stats['rule'] = ('all token sequences <= %d (small alphabet) and <= %d (full alphabet), all strings <= %d chars over a lexer alphabet, '
                      'grammar-directed random expressions x placeholder pool, near-miss mutants, malformed literals, aggregates around failing '
@@ -908,6 +937,14 @@ def run_C13(tier, rng, stats):
             pairs.append((case(ev, 'eval', None, 'q'), case(ev, 'eval', None, '1' + chr(zw) + '+1'), 'non-white-space look-alike is an error'))
     stats['rule'] = ('metamorphic pairs: 1-4 random White_Space characters inserted anywhere (and every one of the 25 characters at every position of a fixed expression), '
                      'alias swaps, floor/ceil brackets, mod/pow as operators, superscript run vs ^N in the stated follow contexts, prefix +, redundant brackets; well-formed and mutated inputs')
+    # a signed literal as the WHOLE input against its redundant-bracket and prefix-plus spellings (entry-point fast paths)
+    for ev in EVS:
+        for l in ['9223372036854775808', '9223372036854775807', '0009223372036854775808', '5', '0', '.5', '5.', '1e5', 'inf', 'nan', 'NaN', '1_000',
+                  '79228162514264337593543950335', '79228162514264337593543950336', '2i', 'i', 'pi', 'e', '@']:
+            for sg in ['', '-', '+', '--', '-+']:
+                x = sg + l
+                for y in ['(' + x + ')', sg + '(' + l + ')', '+' + x, x + ' ', ' ' + x, '(' + sg + '(' + l + '))']:
+                    pairs.append((case(ev, 'eval', None, x), case(ev, 'eval', None, y), 'whole-input signed literal vs an equivalent spelling'))
     return run_pairs('C13', pairs, stats, profiles=('debug', 'release'))
 
 def lit_of_ph(ev, ph):
@@ -1020,6 +1057,29 @@ def run_C20(tier, rng, stats):
             p = rng.choice(pool)
             first.append(case(ev, 'eval', p, E))
             triples.append((ev, C, E, p))
+    # every (parent construct, child operation) pair over boundary operands: a parent that looks through its child node
+    # (fused multiply-add, floor of an exact quotient, strength reductions keyed on the child's shape) differs from the
+    # same parent applied to the child's VALUE exactly when the child's rounding / overflow behaviour matters
+    for ev in EVS:
+        bp = {'f64': ['0.1', '0.3', '3', '9007199254740993', '1' + '0' * 308, '0.' + '0' * 320 + '7', '7', '0'],
+              'number': ['0.1', '3', '9007199254740995', '9223372036854775807', '2', '7', '0', '4611686018427387905'],
+              'i64': ['3', '9223372036854775807', '2', '7', '0', '4611686018427387905', '(-9223372036854775807-1)', '63'],
+              'decimal': ['0.1', '3', '79228162514264337593543950335', '0.0000000000000000000000000001', '7', '0', '2', '1.10'],
+              'complex': ['0.1', '(3+i)', '2i', '1000000', '7', '0', '(0.3-0.7i)', '2']}[ev]   # finite: the wire format cannot carry the sign bit of a NaN, which num_complex's functions inspect
+        parents = ['-@', '+@', '@+1', '1+@', '@-1', '1-@', '2*@', '@*2', '@/2', '2/@', '@^2', '2^@', '@²', 'abs(@)', '(@)(2)', '2(@)'] + \
+                  ([f + '(@)' for f in ('floor', 'ceil', 'round', 'trunc', 'sgn', 'sqrt')] if ev not in ('complex',) else ['sqrt(@)', 'exp(@)']) + \
+                  (['⌊@⌋', '⌈@⌉'] if gen.HAS_FLOORBR[ev] else []) + (['@!'] if gen.HAS_BANG[ev] else []) + \
+                  (['@%7', '7%@'] if '%' in gen.BINOPS[ev] else []) + (['@&6', '@|1', '@<<1', '@>>1'] if ev == 'i64' else []) + \
+                  ([f + '(@,2)' for f in gen.FV[ev][:4]] + [gen.F2[ev][0] + '(@,2)', gen.F2[ev][0] + '(2,@)'])
+        if ev == 'i64':
+            parents = [q for q in parents if not q.startswith(('floor', 'ceil', 'round', 'trunc'))]
+        for a in bp:
+            for b in bp:
+                for op in gen.BINOPS[ev]:
+                    E = a + op + b
+                    first.append(case(ev, 'eval', None, E))
+                    for C in parents:
+                        triples.append((ev, C, E, gen.default_ph(ev)))
     cases, outs, model = run_streams(first, stats)
     res = std_judge('C20', cases, outs, model)
     idx = {c: i for i, c in enumerate(cases)}
@@ -1031,7 +1091,7 @@ def run_C20(tier, rng, stats):
         v = o[3:]
         pairs.append((case(ev, 'eval', p, C.replace('@', '(' + E + ')')), case(ev, 'eval', v, C), 'C[(E)] with p vs C[@] with v'))
     stats['rule'] = ('random (context, subexpression) pairs of well-formed expressions per evaluator, evaluated three times through the public API: E alone, C[(E)], '
-                     'C[@] with the placeholder set to the value of E; contexts put the hole in operand, argument, exponent, prefix-sign and aggregate positions')
+                     'C[@] with the placeholder set to the value of E; contexts put the hole in operand, argument, exponent, prefix-sign and aggregate positions; plus every (parent construct, child binary operation) pair over boundary operands')
     merge(res, run_pairs('C20', pairs, stats))
     return res
 
@@ -1615,7 +1675,7 @@ def run_C10(tier, rng, stats):
         add('decimal', f + '(@)', '-0/2', ('f1', f, (-0.0,)))
     add('decimal', '@!', '-0/0', ('fact', '!', (-0.0,)))
     add('decimal', '@!', '-0/3', ('fact', '!', (-0.0,)))
-    pool_cases = [c for c in s_oppool(tier, rng) if any(ch.isalpha() or ch in '!°' for ch in dec_expr(c[3]).replace('@', ''))]
+    pool_cases = [c for c in s_oppool(tier, rng) + s_pairs2(tier, rng, evs=['f64', 'i64', 'decimal', 'number']) if any(ch.isalpha() or ch in '!°' for ch in dec_expr(c[3]).replace('@', ''))]
     for c in pool_cases:
         if c not in meta:
             cs.append(c); meta[c] = ('model-only', '', ())
@@ -1756,6 +1816,18 @@ def run_C07(tier, rng, stats):
     lits = ['0', '0.0', '0.000', '1', '2', '3', '7', '10', '0.1', '0.2', '0.3', '1.10', '2.50', '0.5', '0.25', '0.125', '1.5', '3.3', '12345.6789', '0.001',
             '99999999999999', '0.0000000001', '79228162514264337593543950335', '7922816251426433759354395033.5', '0.0000000000000000000000000001',
             '1234567890123456789012345678', '39614081257132168796771975168', '0.9999999999999999999999999999', '123456789.123456789', '1000000']
+    for _ in range(24 if tier == 'quick' else 240):
+        digits = 1 + rng.below(28)
+        coef = str(1 + rng.below(10 ** digits - 1))
+        sc = rng.below(min(len(coef), 28) + 1) if rng.chance(2, 3) else rng.below(29)
+        if sc >= len(coef):
+            lit = '0.' + '0' * (sc - len(coef)) + coef
+        elif sc == 0:
+            lit = coef
+        else:
+            lit = coef[:-sc] + '.' + coef[-sc:]
+        if len(lit.replace('.', '')) <= 28:
+            lits.append(lit)
     n = 1500 if tier == 'quick' else 20000
     g = DecTree(rng, lits)
     cs, want = [], {}
@@ -1765,6 +1837,7 @@ def run_C07(tier, rng, stats):
         cs.append(c); want[c] = (st, v)
     # division and remainder
     pool = ['1', '2', '3', '7', '10', '0.5', '0.25', '1.5', '12345.6789', '1000000', '0.001', '79228162514264337593543950335', '0.0000000000000000000000000001', '123456789.123456789', '9', '6', '0']
+    pool = pool + [l for l in lits[-12:] if l not in pool]
     for a in pool:
         for b in pool:
             for op in '/%':
